@@ -151,7 +151,7 @@ theorem eval_benign_aux (ms : List (String × MacroDef)) (ls1 ls2 : List (String
       | nil => simp only [evalArgs, GoodArgs] at h ⊢; injection h with h; subst h; rfl
       | cons p ps =>
         cases args with
-        | nil => simp only [evalArgs, GoodArgs] at h ⊢; injection h with h; subst h; rfl
+        | nil => simp [evalArgs] at h
         | cons a as =>
           simp only [evalArgs] at h ⊢
           cases ha : eval f ⟨ls1, ms, vars1, d⟩ a with
